@@ -55,7 +55,7 @@ package ice
 // the stream is never resynchronised after an error — and every packet handed
 // to the receive queue has exactly the framed length.
 //@ func (*tcpPacketConn).startReading
-//@   props C14
+//@   props C14 C07
 //@   requires conn != nil
 //@   ghostvar failed bool = false
 //@   loop 1 invariant no-read-after-error: !failed
@@ -63,6 +63,7 @@ package ice
 //@   site call readStreamingPacket#1 ghost failed := result1 != nil
 //@   site call removeConn#1 assert detached-on-error: failed && arg1 == conn
 //@   site call handleRecv#2 assert delivers-framed-length: !failed && len(arg1.Data) == n && arg1.Err == nil
+//@   site call handleRecv#2 assert C14 C07 a-queued-packet-owns-its-bytes-and-they-are-the-frame: arg1.Data.base != buf.base && forall j int :: 0 <= j && j < n ==> elems(arg1.Data)[arg1.Data.off + j] == elems(buf)[buf.off + j]
 
 // A packet is either delivered whole or refused: the reported length never
 // exceeds the bytes actually copied into the caller's buffer.
